@@ -454,6 +454,11 @@ def sym_flow_preprocess(vc):
             check(it, 'chain-after-surgery[%s]' % shape, isinstance(r, PyList) and r.items == want)
             if shape == 'checkpoint-middle':
                 check(it, 'checkpoint-receives-the-preceding-links-in-order', got == [('cp', [a, b])])
+                # the same flow object chained again (run, delete the checkpoint, run): the checkpoint is handed its preceding
+                # links AGAIN -- what it does with them depends on the file system then, not on the first chaining
+                r2 = it.call(it.lib.getattr_(it, f, '_preprocess_chain'), [])
+                check(it, 'every-chaining-hands-the-preceding-links-to-the-checkpoint-again', got == [('cp', [a, b]), ('cp', [a, b])] and
+                      isinstance(r2, PyList) and r2.items == want)
             if shape == 'two-checkpoints':
                 check(it, 'later-checkpoint-swallows-the-earlier-one', got == [('cp1', [a]), ('cp2', [got and links[1], b])])
         vc.explore(fk, thunk)
@@ -487,9 +492,9 @@ def nat_checkpoint_histories(h):
             # "running it again": either a freshly built pipeline per run (a script started twice) or the very same Flow
             # object run again (a module-level pipeline run in a loop / retried)
             same_object = h.rng.random() < 0.5
+            flow_ = flow
             if same_object:
                 shared = flow()
-                flow_ = flow
                 flow = lambda: shared          # noqa: E731
             r1 = h.run(lambda: flow().results())
             e1 = len(executed)
@@ -503,6 +508,21 @@ def nat_checkpoint_histories(h):
             r3 = h.run(lambda: flow().results())
             h.check(r3[0] == 'ok' and r1[0] == 'ok' and r3[1][0] == r1[1][0], 'dataflows/processors/checkpoint.py::checkpoint',
                     (rows, two, 'after delete', 'same object' if same_object else 'fresh objects'), 'recomputed result equals first run', r3[:1])
+            # an object whose FIRST run resumed (the checkpoint had been written by another flow object / an earlier process), then
+            # the checkpoint is deleted and the same object runs again: it recomputes from its own steps
+            other = flow_() if same_object else flow()
+            resumer = flow_() if same_object else flow()
+            executed[:] = []
+            ra = h.run(lambda: other.results())
+            ea = len(executed)
+            rb = h.run(lambda: resumer.results())
+            okb = ra[0] == 'ok' and rb[0] == 'ok' and rb[1][0] == ra[1][0] and len(executed) == ea
+            for name in ('one', 'two'):
+                shutil.rmtree(os.path.join(d, name), ignore_errors=True)
+            rc = h.run(lambda: resumer.results())
+            h.check(okb and rc[0] == 'ok' and rc[1][0] == ra[1][0] and rc[1][1].descriptor == ra[1][1].descriptor,
+                    'dataflows/processors/checkpoint.py::checkpoint', (rows, two, 'first run of the object resumed, then delete, then run again'),
+                    'recomputed result equals first run', (ra[:1], rb[:1], rc[:1], rc[1][0] if rc[0] == 'ok' else None))
         finally:
             shutil.rmtree(d, ignore_errors=True)
 
